@@ -11,7 +11,8 @@ import (
 func ExpandMsgXmd(msg, dst []byte, lenInBytes int) ([]byte, error) {
 
 	h := sha256.New()
-	if lenInBytes < 0 {
+	if lenInBytes < 0 || lenInBytes > 255*h.Size() {
+		// (tested before ell is computed: for lengths close to the maximal int the sum below overflows)
 		return nil, errors.New("invalid lenInBytes")
 	}
 	ell := (lenInBytes + h.Size() - 1) / h.Size() // ceil(len_in_bytes / b_in_bytes)
